@@ -195,6 +195,18 @@ bool File::isEOF()
 	return valid && feof(stream);
 }
 
+// Check that at least len bytes are left in the file after the current position
+bool File::haveRemaining(unsigned long len)
+{
+	long cur = ftell(stream);
+	if (cur < 0 || fseek(stream, 0, SEEK_END) != 0) return false;
+
+	long end = ftell(stream);
+	if (fseek(stream, cur, SEEK_SET) != 0 || end < cur) return false;
+
+	return len <= (unsigned long) (end - cur);
+}
+
 // Read an unsigned long value; warning: not thread safe without locking!
 bool File::readULong(unsigned long& value)
 {
@@ -223,6 +235,12 @@ bool File::readByteString(ByteString& value)
 	unsigned long len;
 
 	if (!readULong(len))
+	{
+		return false;
+	}
+
+	// A length field that points beyond the end of the file is malformed
+	if (!haveRemaining(len))
 	{
 		return false;
 	}
@@ -407,6 +425,12 @@ bool File::readString(std::string& value)
 	unsigned long len;
 
 	if (!readULong(len))
+	{
+		return false;
+	}
+
+	// A length field that points beyond the end of the file is malformed
+	if (!haveRemaining(len))
 	{
 		return false;
 	}
